@@ -1,6 +1,7 @@
 package decorator
 
 import (
+	"bytes"
 	"go/ast"
 	"go/token"
 
@@ -216,3 +217,96 @@ func VerifC01Pipeline5() { vfPipeline(vfSources[5]) }
 func VerifC01PipelineDir() { vfPipelineDir() }
 
 var _ = dst.NewIdent
+
+// ---- the public entry points (string helpers, explicit decorator with a caller's FileSet, directory) ----
+
+// VerifC01Entry: the same comparison through the public wrappers. go/parser.ParseFile / ParseDir are
+// the real parser run natively inside the engine on concrete sources (ParseDir over the in-memory file
+// system), so Parse, ParseFile, ParseDir, Decorate*, RestoreFile and Fprint are executed from their real
+// code. The printed bytes themselves are contract PC (format.Node is an uninterpreted function).
+func VerifC01Entry() {
+	src := vfSources[vfChoice("source", 3)]
+	reference := func() (*token.FileSet, *ast.File) {
+		fs := token.NewFileSet()
+		f, _ := vfParseInto(fs, src)
+		return fs, f
+	}
+	switch vfChoice("entry", 4) {
+	case 0: // string helper
+		df, err := Parse(src)
+		vfAssert(err == nil && df != nil, "Parse-ok")
+		if err != nil {
+			return
+		}
+		fs, f := reference()
+		vfCompareRestored(fs, f, df)
+		var buf bytes.Buffer
+		vfAssert(Fprint(&buf, dst.Clone(df).(*dst.File)) == nil, "Fprint-ok")
+	case 1: // helper with a caller-supplied FileSet that already holds a file
+		fset := token.NewFileSet()
+		fset.AddFile("prior.go", -1, vfInt("priorSize", 0, 1<<20))
+		df, err := ParseFile(fset, "x.go", src, 0)
+		vfAssert(err == nil && df != nil, "ParseFile-ok")
+		if err != nil {
+			return
+		}
+		fs, f := reference()
+		vfCompareRestored(fs, f, df)
+	case 2: // explicit decorator + DecorateFile of an ast the caller parsed, source given as []byte
+		fset := token.NewFileSet()
+		d := NewDecorator(fset)
+		df, err := d.ParseFile("y.go", []byte(src), 0)
+		vfAssert(err == nil && df != nil, "Decorator.ParseFile-ok")
+		if err != nil {
+			return
+		}
+		vfAssert(d.Filenames[df] == "y.go", "file-name-recorded")
+		fs, f := reference()
+		vfCompareRestored(fs, f, df)
+	default: // directory
+		vfEntryDir()
+	}
+}
+
+// vfEntryDir: Decorator.ParseDir over two files of one package.
+func vfEntryDir() {
+	{
+		root := vfFSRoot()
+		vfFSPut(root+"/a.go", vfDirSources[0])
+		vfFSPut(root+"/b.go", vfDirSources[1])
+		fset := token.NewFileSet()
+		d := NewDecorator(fset)
+		pkgs, err := d.ParseDir(root, nil, 0)
+		vfAssert(err == nil, "ParseDir-ok")
+		if err != nil {
+			return
+		}
+		dp := pkgs["p"]
+		vfAssert(len(pkgs) == 1 && dp != nil && len(dp.Files) == 2, "ParseDir-one-package-two-files")
+		if dp == nil || len(dp.Files) != 2 {
+			return
+		}
+		// the package and its files are in the decorator's maps (C11) and the file names are recorded
+		ap, ok := d.Ast.Nodes[dp].(*ast.Package)
+		vfAssert(ok && ap != nil, "ParseDir-package-in-node-map")
+		if ok && ap != nil {
+			vfAssert(d.Dst.Nodes[ap] == dst.Node(dp), "ParseDir-package-in-node-map")
+			for name, df := range dp.Files {
+				vfAssert(d.Ast.Nodes[df] == ast.Node(ap.Files[name]), "ParseDir-files-correspond")
+				vfAssert(d.Filenames[df] == name, "file-name-recorded")
+			}
+		}
+		for i, name := range []string{root + "/a.go", root + "/b.go"} {
+			fs := token.NewFileSet()
+			f, _ := vfParseInto(fs, vfDirSources[i])
+			df := dp.Files[name]
+			vfAssert(df != nil, "ParseDir-file-present")
+			if df != nil {
+				vfCompareRestored(fs, f, df)
+			}
+		}
+	}
+}
+
+// VerifC11ParseDir: the package node and its files are in the decorator's node maps after ParseDir.
+func VerifC11ParseDir() { vfEntryDir() }
